@@ -14,7 +14,7 @@ class Refused(Exception):
     pass
 
 
-def generate(obj, hierarchy=True, history=(), **kw):
+def generate(obj, hierarchy=True, history=(), between=None, **kw):
     """history: earlier requests made on the same generator object before the judged one - 'hier_top', 'flat_top',
     'hier_child', 'flat_child' (child = the first descendant emitted as its own module); their outcome is ignored"""
     try:
@@ -33,6 +33,8 @@ def generate(obj, hierarchy=True, history=(), **kw):
                     g.getVerilog(target)
             except Exception:
                 pass
+        if between is not None:
+            between()          # an edit of the design made between the earlier requests and the judged one
         if hierarchy:
             return g.getVerilogForHierarchy(**kw)
         return g.getVerilog(**kw)
